@@ -113,7 +113,7 @@ Lemma K_apply_votes ih ivs kind s vid h r ups s' :
   find_view (kpos_of s) h r = Ok (vid, ViewFound) ->
   K ih ivs s -> ups <> [] ->
   auth_pmap (vs_keys (v_vals (get_view s vid))) kind (v_h (get_view s vid)) (v_r (get_view s vid)) ups ->
-  ne_pmap ups -> nd_pmap ups ->
+  ne_pmap ups -> (vid = ViewIDVoting \/ vid = ViewIDNextRound -> nd_pmap ups) ->
   apply_votes kind s vid h r ups = Ok s' -> K ih ivs s' /\ pref ih ivs s s'.
 Proof.
   intros Hk Hfv (HI&HP&HX) Hune Hu Hne Hund Happ.
@@ -266,8 +266,8 @@ Proof.
               yview (st_rounds s) (st_replayed s) w -> yview (st_rounds s2) (st_replayed s2) w).
     { intros w Hcw Hw. rewrite Er2, Hrp2. eapply yview_mono; [| | | |exact Hw]; rewrite ?rs_entry_set, ?Hcw; try reflexivity;
         intros x Hx; exact Hx. }
-    assert (Hupd : yview (st_rounds s) (st_replayed s) v -> yview (st_rounds s2) (st_replayed s2) v2).
-    { intros ((A1&A2)&(B1&B2)&YC&YD&YE&YF). rewrite Er2, Hrp2.
+    assert (Hupd : nd_pmap ups -> yview (st_rounds s) (st_replayed s) v -> yview (st_rounds s2) (st_replayed s2) v2).
+    { intros Hund' ((A1&A2)&(B1&B2)&YC&YD&YE&YF). rewrite Er2, Hrp2.
       assert (Hwf' : votes_wf votes').
       { unfold votes', view_votes. destruct (kind =? KPrevote).
         - split; [apply fold_pm_set_keys_nodup; exact A1|apply fold_pm_set_nd; assumption].
@@ -298,9 +298,9 @@ Proof.
     assert (Hne32 := wrap32_succ_neq (v_r (k_vot s))).
     destruct Hcase as [(A&B&C)|[(A&B&C)|(A&B&C&D)]]; subst vid;
       cbn [N.eqb ViewIDVoting ViewIDNextRound ViewIDCommitting Pos.eqb] in *.
-    - split; [apply Hupd; exact Yv|]. apply Hother; [|exact Yn].
+    - split; [apply Hupd; [apply Hund; left; reflexivity|exact Yv]|]. apply Hother; [|exact Yn].
       rewrite Hnr, C. destruct (N.eqb_spec (v_r (k_vot s)) (wrap32 (v_r (k_vot s) + 1))) as [E|_]; [congruence|]. apply andb_false_r.
-    - split; [|apply Hupd; exact Yn]. apply Hother; [|exact Yv].
+    - split; [|apply Hupd; [apply Hund; right; reflexivity|exact Yn]]. apply Hother; [|exact Yv].
       rewrite C. destruct (N.eqb_spec (wrap32 (v_r (k_vot s) + 1)) (v_r (k_vot s))) as [E|_]; [congruence|]. apply andb_false_r.
     - split; apply Hother; try assumption; rewrite ?Hnh; destruct (N.eqb_spec h (v_h (k_vot s))) as [E|_]; try contradiction; reflexivity. }
   assert (Pr2 : pref ih ivs s s2).
